@@ -6,6 +6,13 @@ import os
 import sys
 import types
 
+if os.environ.get("COVERAGE_PROCESS_START"):      # tools/impl_coverage.sh: measure library coverage inside the CLI subprocesses too
+    try:
+        import coverage
+        coverage.process_startup()
+    except Exception:
+        pass
+
 _c = os.environ.get("CCTV_GPG_CANNED")
 if _c:
     _v = json.loads(_c)
